@@ -150,7 +150,8 @@ func runCase(run *vh.Run, idx int, c Case) *obs {
 		}
 		// the premises of Props/C06.federation_transparent, as far as the harness can see them (the Coq side
 		// evaluates the precise ones on every case counted here)
-		inScope := allFed && flatSS != nil && planTerm != "None" &&
+		// (since round 7 the theorem covers the plain, non-federated object Leaf: all-objects-federated is no longer required)
+		inScope := flatSS != nil && planTerm != "None" &&
 			answerTerm != "None" && flatInScope(flatSS, "Query", retMap(c.Services))
 		if inScope {
 			run.Hist("model:premises-of-transparency-theorem-hold")
